@@ -152,6 +152,23 @@ CHECKS.update({
     ),
 })
 
+CHECKS.update({
+    "C09": (
+        "exploration",
+        "runtime monitor: window bookkeeping read after every draw of real chains (hook accessor) vs schedule model; dual-averaging replay from reported statistics",
+        "Real Diag/LowRank chains (NUTS and MCLMC) with num_tune 20..1200 and random early_window, step_size_window, switch / early switch / "
+        "update frequencies and growth factors run on iso / scaled / funnel targets with seeded recoverable faults. After every draw the "
+        "foreground / background estimator counts and window size are read and compared with a schedule model: counts grow by one exactly on "
+        "accepted draws (not on stuck or near-start divergent draws), a switch moves the background into the foreground and empties it, happens "
+        "only with a full window (early size, then geometrically growing sizes) and only if another full window fits before the final "
+        "step-size window, is not skipped when due, the window grows by the configured factor, nothing is fed in the final window, the first "
+        "transformation change costs extra density evaluations (re-run search), and dual averaging replayed from the reported acceptance "
+        "statistics reproduces step_size_bar - with the symmetric statistic inside the final window.",
+        "+-1 draw slack on window boundaries; far-from-start divergent draws may count either way; before the final window either statistic is accepted in the replay.",
+        "DESIGN.md §3 C09",
+    ),
+})
+
 NOT_YET = {}
 
 
